@@ -627,3 +627,60 @@ Theorem taxlabels_hypotheses_satisfiable :
     /\ fst r = [q "a"].
 Proof. exact C13MapperModel.taxlabels_hypotheses_satisfiable. Qed.
 Print Assumptions taxlabels_hypotheses_satisfiable.
+
+(* ============ wave 7: readers alive at once (interleaved route histories) ============ *)
+(* Two readers A and B - a suspended Tree.yield_from_files iterator, another iterator, an eager read in progress - each
+   drive a NexusTaxonSymbolMapper of their own.  Model/C13MapObjPrims.v is a store of container OBJECTS; a mapper object
+   holds the identities of its four tables; Gen/RoutesMapperObj.v (py/dv/gen_routes_mapper_obj.py) compiles the class
+   statement by statement as to WHICH container is allocated, rebound, mutated in place or read, resolving an attribute
+   bound in the class body (and not rebound by __init__) to one container shared by all instances.
+   osys2 (Proofs/C13MapObjSys.v): construct A's mapper, then B's, in ONE store (any store w0, any blank objects), then run
+   an ARBITRARY schedule of steps (false = A, true = B): ONew = a further NexusTaxonSymbolMapper(..) on that side (next
+   TREES block / next read), OAdd = add_translate_token, OLookup = lookup_taxon_symbol, ORequire =
+   require_taxon_for_symbol - all through the compiled object-level methods; the result is the list of answers of each side.
+   mrun1 is the MODEL's mapper (new_mapper, add_translate_token, lookup_taxon_symbol, require_taxon_for_symbol of
+   Model/C13Model.v) run on ONE reader's steps alone.
+   INDEPENDENCE: interleaving gives each reader exactly the answers it gets alone (namespaces mutable when a mapper is
+   built, as on every tree route; for locked namespaces see interleaved_is_separate in Props/C13Gen.v). *)
+From DV Require Import Model.C13MapPrims Model.C13MapObjPrims Gen.RoutesMapperObj Proofs.C13MapObj Proofs.C13MapObjSys.
+
+Theorem interleaved_readers_independent :
+  forall (lower : str -> str) (cls : mcls) (w0 : world) (oA0 oB0 : mref)
+         (taxaA : list str) (bA : bool) (taxaB : list str) (bB : bool) (sched : list (bool * mop)),
+  Forall (fun p => mop_mutable (snd p)) sched ->
+  osys2 lower cls w0 oA0 oB0 (taxaA, true) bA (taxaB, true) bB sched
+  = Ok (mrun1 lower (new_mapper lower taxaA bA) (ops_of false sched),
+        mrun1 lower (new_mapper lower taxaB bB) (ops_of true sched)).
+Proof. exact C13MapObjSys.interleaved_model. Qed.
+Print Assumptions interleaved_readers_independent.
+
+(* not vacuous: A over [a; b], B over [b]; "1" is a for A and b for B; B's TRANSLATE entry 2 -> b and B's later
+   re-construction over [b; a] leave A's answers (a, b, a) as they are *)
+Theorem interleaved_readers_example :
+  Forall (fun p => mop_mutable (snd p)) ex_sched
+  /\ osys2 ex_lower ex_cls world_empty ex_blank ex_blank ([sA; sB], true) true ([sB], true) true ex_sched
+     = Ok ([Some 0%nat; Some 1%nat; Some 0%nat], [Some 0%nat; None; Some 0%nat; None; Some 0%nat]).
+Proof. exact (conj C13MapObjSys.interleaved_example_hyp C13MapObjSys.interleaved_example). Qed.
+Print Assumptions interleaved_readers_example.
+
+(* two mapper objects constructed in one store share no table: their container identities are disjoint, both objects are
+   well-formed (four different allocated containers each), and the second construction leaves the first object's
+   tables as they were *)
+Theorem new_mappers_share_no_table :
+  forall (lower : str -> str) (cls : mcls) (w0 : world) (oA0 oB0 : mref) (nsA : nsobj) (bA : bool) (nsB : nsobj) (bB : bool)
+         (oA : mref) (w1 : world) (oB : mref) (w2 : world),
+  gmo_init lower cls oA0 w0 nsA bA = Ok (tt, oA, w1) ->
+  gmo_init lower cls oB0 w1 nsB bB = Ok (tt, oB, w2) ->
+  (forall c, In c (refs oA) -> ~ In c (refs oB)) /\ wfo w2 oA /\ wfo w2 oB /\ deref w2 oA = deref w1 oA.
+Proof. exact C13MapObjSys.new_mappers_share_no_table. Qed.
+Print Assumptions new_mappers_share_no_table.
+
+(* the hypothesis "no shared table" is what carries independence: two well-formed mapper objects that hold the SAME
+   number table (what a class-level number_taxon_map amounts to) - a new taxon created through B appears under its number
+   in the table A reads, and A's second answer is Some 1 where alone it is None *)
+Theorem shared_table_breaks_independence_refuted :
+  wfo sh_w sh_A /\ wfo sh_w sh_B
+  /\ orun2 ex_lower ex_cls sh_A sh_B sh_w sh_sched = Ok ([None; Some 1%nat], [Some 1%nat])
+  /\ vrun2 ex_lower (deref sh_w sh_A) (deref sh_w sh_B) sh_sched = Ok ([None; None], [Some 1%nat]).
+Proof. exact C13MapObjSys.shared_table_breaks_independence. Qed.
+Print Assumptions shared_table_breaks_independence_refuted.
